@@ -530,9 +530,41 @@ class TwinGen(object):
             s.op("ru%d=vnacal_make_unknown_parameter $vc %d" % (
                 n, int(r.integers(0, 3))))
             s.add("buf rz%d cmatrix %d %d" % (n, sc.r * sc.c, F))
+            # ... for one of several reasons, some of them found only when
+            # the parameter is really entered (its frequency range, the range
+            # of a correlate further down a chain, a deleted handle)
+            why = int(r.integers(0, 6))
+            lo = float(sc.freqs[0])
+            if why <= 1:
+                bad = str(int(r.choice([4242, -1])))
+            elif why == 2:
+                s.rvec("rvf%d" % n, [lo * 0.1, lo * 0.2])
+                s.cvec("rvg%d" % n, [0.5, 0.4 + 0.1j])
+                s.op("rv%d=vnacal_make_vector_parameter $vc @rvf%d 2 @rvg%d"
+                     % (n, n, n))
+                bad = "$rv%d" % n
+            elif why in (3, 4):
+                s.rvec("rcf%d" % n, [lo * 0.1, lo * 0.2])
+                s.rvec("rcs%d" % n, [0.01, 0.02])
+                s.op("rs%d=vnacal_make_scalar_parameter $vc %s" % (
+                    n, cx(complex(0.3, -0.2))))
+                s.op("rc%d=vnacal_make_correlated_parameter $vc $rs%d "
+                     "@rcf%d 2 @rcs%d" % (n, n, n, n))
+                bad = "$rc%d" % n
+                if why == 4:
+                    # the short range sits one link down the chain
+                    s.rvec("rds%d" % n, [0.05])
+                    s.op("rd%d=vnacal_make_correlated_parameter $vc $rc%d "
+                         "NULL 1 @rds%d" % (n, n, n))
+                    bad = "$rd%d" % n
+            else:
+                s.op("rx%d=vnacal_make_scalar_parameter $vc %s" % (
+                    n, cx(complex(-0.6, 0.1))))
+                s.op("vnacal_delete_parameter $vc $rx%d" % n)
+                bad = "$rx%d" % n
             self.cand.add(s.op(
-                "vnacal_new_add_double_reflect_m $%s @rz%d %d %d $ru%d %d 1 2"
-                % (vn, n, sc.r, sc.c, n, int(r.choice([4242, -1])))))
+                "vnacal_new_add_double_reflect_m $%s @rz%d %d %d $ru%d %s 1 2"
+                % (vn, n, sc.r, sc.c, n, bad)))
             return
         if k == 0:
             s.rvec("rf%d" % n, list(sc.freqs[::-1]) if F > 1 else [-1.0])
